@@ -43,7 +43,9 @@ RULE = ('cap/poly: one case = one call (cap tuple, use-mask, ncaps argument, poi
         'Distinct = distinct case keys (all parameters of the call).')
 ASSUMPTIONS = [
     'cap sizes cm are taken from {1e-6, 0.1, 0.5, 1, 1.5, 2, -0.1, -0.5, -1.5}; cm = 0, |cm| > 2 and -0.0 are outside the bound',
-    'a point whose 1 - x.p lies within 1e-12 of |cm| for a used cap is a don\'t-care for that cap (three-valued AND)',
+    'a point whose 1 - x.p lies within 1e-12 of |cm| for a used cap is a don\'t-care for that cap (three-valued AND); the only '
+    'boundary points decided are axis points on axis great-circle caps (cm = 1, Cartesian input), where 1 - x.p = cm holds '
+    'exactly in float64 and the stated "<=" makes them inside',
     'Cartesian points are unit vectors to float64 rounding (|p| = 1 +- 3e-16); the inequality is evaluated on the vectors as given',
     'Mangle text files are written with shortest-round-trip decimals so that all storage routes hold bit-identical caps; '
     'the .ply format and the blist/bcaps tables carry no use-mask, so these routes are compared on all-caps masks only',
@@ -518,7 +520,16 @@ def check_case(case):
         caps = case['caps']
         decs = [decide(dots(c[:3], pts, fmt), c[3], fmt) for c in caps]
         entry = 'is_in_polygon' if layer == 'poly' else 'is_in_cap'
+        if case.get('exact'):
+            # exact-boundary case: 1 - x.p == cm > 0 in exact arithmetic -> inside by the stated inequality
+            ok = fmt == 'xyz' and all(c[3] > 0 and all(1 - d - F(float(c[3])) == 0 for d in dots(c[:3], pts, fmt))
+                                      for c in caps)
+            if not ok:
+                raise ValueError('not an exact-boundary case')
+            decs = [(np.ones(len(pts), dtype=np.int8), np.zeros(len(pts))) for _c in caps]
         v, _exp = _membership(entry, caps, case.get('use', 1), case.get('ncaps', 0), fmt, pts, decs, case.get('ctor'))
+        if case.get('exact'):
+            v = [(s.replace(':membership', ':membership:exact-boundary'), m, k) for s, m, k in v]
         return [(s, m) for s, m, _k in v]
     if layer == 'window':
         fmt, pfmt, ncapsarg = case['fmt'], case['pfmt'], case['ncaps']
@@ -629,6 +640,21 @@ def run_small(acc):
     for (n, v, _rd), cm in itertools.product(CENTRES, CMS):
         for fmt in ('xyz', 'radec'):
             _run_membership(acc, 'is_in_cap', 'cap', [(n, cm)], [[v[0], v[1], v[2], cm]], 1, 0, fmt)
+    # exact boundary: axis caps with cm = 1 (great circles) and the perpendicular axis points, Cartesian input.
+    # Every quantity is exactly representable (x.p = 0, 1 - x.p = 1 = cm), so "1 - x.p <= cm" holds with equality
+    # and is decided without rounding; only cm > 0 is demanded (the complement's boundary is left open).
+    axes = [c for c in CENTRES if len(c[0]) == 2]
+    for (n, v, _rd) in axes:
+        pts = np.array([w for (_m, w, _r) in axes if sum(a * b for a, b in zip(v, w)) == 0.0], dtype=np.float64)
+        caps = [[v[0], v[1], v[2], 1.0]]
+        ones = (np.ones(len(pts), dtype=np.int8), np.zeros(len(pts)))
+        for entry, layer in (('is_in_cap', 'cap'), ('is_in_polygon', 'poly')):
+            viol, _exp = _membership(entry, caps, 1, 0, 'xyz', pts, [ones])
+            viol = [(s.replace(':membership', ':membership:exact-boundary'), m, k) for s, m, k in viol]
+            acc.extra['point_decisions'] += len(pts)
+            _emit(acc, {'layer': layer, 'exact-boundary': n}, True, 'ok:%s:exact-boundary-inside' % entry, viol,
+                  lambda k, layer=layer, pts=pts, caps=caps: {'layer': layer, 'caps': caps, 'use': 1, 'ncaps': 0,
+                                                              'fmt': 'xyz', 'pts': [pts[k].tolist()], 'exact': True})
     # polygons without caps and with one cap
     for fmt in ('xyz', 'radec'):
         for ctor in ('empty', 'kw0'):
